@@ -401,6 +401,12 @@ pub fn check_def(id: &str) -> Option<CheckDef> {
             )
         },
         "C25" => d("C25", vec![iterate_profile()]),
+        "C26" => CheckDef {
+            quick_runs: 60_000,
+            thorough_runs: 1_500_000,
+            hash_seeds: (1, 1),
+            ..d("C26", vec![])
+        },
         "C28" => d("C28", vec![custom_profile()]),
         "C29" => d("C29", vec![names_profile()]),
         "C30" => d("C30", vec![additions_profile()]),
@@ -450,6 +456,8 @@ fn owns(id: &str, m: &Mismatch) -> bool {
                 || (k == "returned_id" && matches!(s, "add_global" | "add_imported_global" | "add_data" | "add_local_memory" | "add_import_memory"))
                 || (matches!(k, "func_ref" | "mem_ref") && s == "export(added)")
                 || (k == "mem_ref" && s == "data.mem")
+                || (k == "global_ref" && (s == "global.get(data.offset)" || s == "global.get(global.init)"))
+                || (k == "func_ref" && s == "ref.func(global.init)")
                 || generic
         }
         _ => false,
@@ -610,6 +618,10 @@ pub fn judge(id: &str, sc: &Scenario, hash_seeds: usize) -> (Judged, RunResult, 
         "C05" => {
             let r = run(sc);
             (judge_c05(sc, &r), r, sc.clone())
+        }
+        "C26" => {
+            let (j, r) = crate::c26::judge_c26(sc);
+            (j, r, sc.clone())
         }
         "C25" => {
             let r = run(sc);
